@@ -276,7 +276,11 @@ def apply_edit(rng: random.Random, old: dict, new: dict, kind: str, surface: dic
         if not cands:
             return None
         m, c, o = rng.choice(cands)
-        o["params"].append((f"kw{rng.randint(10, 99)}", "None"))
+        taken = {p[0] for p in o["params"]}
+        kwname = f"kw{rng.randint(10, 99)}"
+        while kwname in taken:  # two edits of one function must not draw the same name (SyntaxError in the generated module)
+            kwname += "x"
+        o["params"].append((kwname, "None"))
         return {"edit": kind, "where": canon(m, c, o), "expect": None}
     if kind == "change_private":
         cands = [(m, c, o) for m, c, o in objs if not surface.get(canon(m, c, o)) and not (c and surface.get(canon(m, None, c)) and not o["name"].startswith("_"))]
